@@ -116,7 +116,7 @@ func c17Path(r *rand.Rand, prefix string, t *c17Tree) string {
 	}
 	p := prefix + "/" + strings.Join(segs, "/")
 	if chance(r, 1, 6) {
-		p = strings.Replace(p, prefix, prefix+pick(r, []string{"/", "x", "/../"+strings.TrimPrefix(prefix, "/")}), 1)
+		p = strings.Replace(p, prefix, prefix+pick(r, []string{"/", "x", "/../" + strings.TrimPrefix(prefix, "/")}), 1)
 	}
 	return p
 }
@@ -124,7 +124,7 @@ func c17Path(r *rand.Rand, prefix string, t *c17Tree) string {
 func runC17(e *Env) {
 	// an application-wide path variable with the name StaticFiles uses for its own, stricter one
 	rux.SetGlobalVar("file", `[\w.-]+`)
-	e.Rule = "a sandbox tree (root with css/js/txt files, nested directories, a hidden file, files whose names end in the letters of an allowed extension without the dot; next to the root: secrets with and without allowed extensions, sibling directories rootx and root.bak, a same-named a.css) - every outside file carries a canary token; routers with StaticDir, StaticFiles (css|js, css), StaticFS(http.Dir), StaticFile under prefixes /s and /assets/v1 (also registered inside a group), the root spelled absolutely or relative to the working directory ('' and '.'), with/without UseEncodedPath and StrictLastSlash; request paths from a grammar of hostile segments (.., ., empty, %2e%2e, ..%2f, %2F, back-slashes, %00, NUL, trailing dots/blanks, case variants, absolute paths, over-long ../ chains, names of outside files), sent both as raw URL.Path (no client-side cleaning) and as escaped request targets parsed like a server. Oracle: no response body contains a canary or the name of an outside file; a 200 body that is not a directory listing equals a file under the root byte for byte; StaticFiles answers 200 only when the matched path ends in '.'+allowed extension; StaticFile returns only the configured file; no panic. Non-trivial: a path containing a dot-dot/encoded/absolute component or an outside name; distinct by (configuration, path). A second root is the dot-directory root/.pub (spelled absolutely or relatively) next to a decoy directory root/pub with same-named canary files; a global path variable named file is registered; segments with encoded ? and # behind forbidden file names; a file served by StaticFiles must itself carry an allowed extension."
+	e.Rule = "a sandbox tree (root with css/js/txt files, nested directories, a hidden file, files whose names end in the letters of an allowed extension without the dot; next to the root: secrets with and without allowed extensions, sibling directories rootx and root.bak, a same-named a.css) - every outside file carries a canary token; routers with StaticDir, StaticFiles (css|js, css), StaticFS(http.Dir), StaticFile under prefixes /s and /assets/v1 (also registered inside a group), the root spelled absolutely or relative to the working directory ('' and '.'), with/without UseEncodedPath and StrictLastSlash; request paths from a grammar of hostile segments (.., ., empty, %2e%2e, ..%2f, %2F, back-slashes, %00, NUL, trailing dots/blanks, case variants, absolute paths, over-long ../ chains, names of outside files), sent both as raw URL.Path (no client-side cleaning) and as escaped request targets parsed like a server. Oracle: no response body contains a canary or the name of an outside file; a 200 body that is not a directory listing equals a file under the root byte for byte; StaticFiles answers 200 only when the matched path ends in '.'+allowed extension; StaticFile returns only the configured file; no panic. Non-trivial: a path containing a dot-dot/encoded/absolute component or an outside name; distinct by (configuration, path). A second root is the dot-directory root/.pub (spelled absolutely or relatively) next to a decoy directory root/pub with same-named canary files; a global path variable named file is registered; segments with encoded ? and # behind forbidden file names; a file served by StaticFiles must itself carry an allowed extension. A third of the routers have a route cache of two entries and a second StaticFiles mount (/zz) with the other root; after the hostile requests: a file of the mount under test, two files of /zz, the first again."
 	e.Assumptions = []string{
 		"symlinks inside the root pointing outside are not part of the statement's tree (http.Dir follows them by design)",
 		"directory listings (FileServer) are allowed as long as they list nothing outside the root",
@@ -162,6 +162,11 @@ func runC17(e *Env) {
 		}
 		if strict {
 			opts = append(opts, rux.StrictLastSlash)
+		}
+		cached := chance(r, 1, 3) // a small route cache; a second static mount with another root competes for it
+		if cached {
+			opts = append(opts, rux.CachingWithNum(2))
+			t.Count("requests.router_with_route_cache_and_second_mount", 1)
 		}
 		router := rux.New(opts...)
 		staticFileTarget := "c.txt"
@@ -206,9 +211,16 @@ func runC17(e *Env) {
 			}
 			reg(func() { router.StaticFile(regPrefix+"/file", target) })
 		}
+		if cached {
+			other := tree.AltRoot
+			if rootAbs == tree.AltRoot {
+				other = tree.Root
+			}
+			router.StaticFiles("/zz", other, "css|js")
+		}
 		var cur string
 		t.Describe(func() any {
-			return map[string]any{"handler": kind, "prefix": prefix, "exts": exts, "UseEncodedPath": encoded, "StrictLastSlash": strict, "root": rootAbs, "root_spelled_as": rootSpelling, "registered_in_group": inGroup, "request": cur}
+			return map[string]any{"route_cache(2)_and_second_mount_/zz_with_the_other_root": cached, "handler": kind, "prefix": prefix, "exts": exts, "UseEncodedPath": encoded, "StrictLastSlash": strict, "root": rootAbs, "root_spelled_as": rootSpelling, "registered_in_group": inGroup, "request": cur}
 		})
 		t.AutoSample()
 		for i := 0; i < 12; i++ {
@@ -319,6 +331,34 @@ func runC17(e *Env) {
 						t.Fail("extension-filter-bypassed", "%s on StaticFiles(%s, exts %q): served %q although the request path does not end in an allowed extension", cur, prefix, exts, f)
 						return
 					}
+				}
+			}
+		}
+		// with the cache: a file of this mount, two files of the other mount (the cache holds two entries), the first
+		// one again - it must still be this root's file
+		if cached && kind != "StaticFile" {
+			pth := prefix + "/a.css"
+			first, _, p1 := Serve(router, NewReq("GET", pth))
+			_, _, _ = Serve(router, NewReq("GET", "/zz/a.css"))
+			_, _, _ = Serve(router, NewReq("GET", "/zz/sub/b.js"))
+			again, _, p2 := Serve(router, NewReq("GET", pth))
+			cur = fmt.Sprintf("GET %q, GET /zz/a.css, GET /zz/sub/b.js, GET %q again", pth, pth)
+			t.Count("requests.repeat_after_the_other_mount_filled_the_cache", 1)
+			if p1 || p2 {
+				t.Fail("servehttp-panics", "%s on %s(%s): panicked", cur, kind, prefix)
+				return
+			}
+			if strings.Contains(again.Body.String(), c17Canary) {
+				t.Fail("outside-content-served", "%s on %s(%s, root %s): the repeated request returned bytes of a file outside the root: %q", cur, kind, prefix, rootAbs, truncate(again.Body.String(), 120))
+				return
+			}
+			if again.Status() != first.Status() || again.Body.String() != first.Body.String() {
+				t.Fail("served-bytes-not-a-root-file", "%s on %s(%s, root %s): first answer status %d %q, repeated answer status %d %q", cur, kind, prefix, rootAbs, first.Status(), truncate(first.Body.String(), 80), again.Status(), truncate(again.Body.String(), 80))
+				return
+			}
+			if first.Status() == 200 {
+				if _, ok := insideByContent[first.Body.String()]; !ok {
+					t.Fail("served-bytes-not-a-root-file", "%s on %s(%s): 200 with a body that is not the content of any file under the root: %q", cur, kind, prefix, truncate(first.Body.String(), 120))
 				}
 			}
 		}
